@@ -24,6 +24,7 @@ import (
 
 	"bmvh/common"
 
+	"github.com/BondMachineHQ/BondMachine/pkg/bmnumbers"
 	"github.com/BondMachineHQ/BondMachine/pkg/bondmachine"
 	"github.com/BondMachineHQ/BondMachine/pkg/procbuilder"
 	"github.com/BondMachineHQ/BondMachine/pkg/simbox"
@@ -39,6 +40,8 @@ type caseSpec struct {
 	Ring  bool
 	Delay bool       // simulated with the process-wide shared *simbox.SimDelays (deterministic distributions)
 	Progs [][]string // per core, instructions as assembler lines
+	Rules []string   // simbox rules driving the run the way `bondmachine -sim` does (i0 -> p0i0, p0o0 -> o0)
+	Sps   string     // "<number type>~<input>": the case is one SinglePipelineSimulate call showing o0 in that type
 }
 
 func (c caseSpec) String() string {
@@ -58,7 +61,14 @@ func (c caseSpec) String() string {
 	if c.Delay {
 		delays = 1
 	}
-	return fmt.Sprintf("id=%d P=%d rsize=%d ticks=%d ring=%d delays=%d progs=%s", c.ID, c.P, c.Rsize, c.Ticks, ring, delays, strings.Join(ps, "/"))
+	extra := ""
+	if len(c.Rules) > 0 {
+		extra += " rules=" + strings.Join(c.Rules, ";")
+	}
+	if c.Sps != "" {
+		extra += " sps=" + c.Sps
+	}
+	return fmt.Sprintf("id=%d P=%d rsize=%d ticks=%d ring=%d delays=%d%s progs=%s", c.ID, c.P, c.Rsize, c.Ticks, ring, delays, extra, strings.Join(ps, "/"))
 }
 
 func parseCase(s string) (caseSpec, error) {
@@ -81,6 +91,10 @@ func parseCase(s string) (caseSpec, error) {
 			c.Ring = kv[1] == "1"
 		case "delays":
 			c.Delay = kv[1] == "1"
+		case "rules":
+			c.Rules = strings.Split(kv[1], ";")
+		case "sps":
+			c.Sps = kv[1]
 		case "progs":
 			for _, p := range strings.Split(kv[1], "/") {
 				var prog []string
@@ -142,6 +156,9 @@ func (c caseSpec) build() (*bondmachine.Bondmachine, error) {
 		d.Arch.Rsize = uint8(c.Rsize)
 		d.Arch.Modes = []string{"ha"}
 		d.Arch.R, d.Arch.N, d.Arch.M, d.Arch.L, d.Arch.O = 2, 1, 1, 2, 5
+		if c.Sps != "" && i == 0 {
+			d.Arch.M = 2
+		}
 		d.Arch.Op = opsFor(c.Progs[i])
 		p, err := d.Arch.Assembler([]byte(strings.Join(c.Progs[i], "\n") + "\n"))
 		if err != nil {
@@ -158,6 +175,22 @@ func (c caseSpec) build() (*bondmachine.Bondmachine, error) {
 			bm.Add_bond([]string{fmt.Sprintf("p%do0", i), fmt.Sprintf("p%di0", (i+1)%c.P)})
 		}
 	}
+	if len(c.Rules) > 0 || c.Sps != "" {
+		// external IO on core 0: i0 -> p0i0, p0o0 -> o0 (and p0o1 -> o1 for the pipeline call)
+		bm.Add_input()
+		bm.Add_output()
+		bm.Add_bond([]string{"i0", "p0i0"})
+		bm.Add_bond([]string{"p0o0", "o0"})
+		if c.Sps != "" {
+			bm.Add_output()
+			bm.Add_bond([]string{"p0o1", "o1"})
+			// the number type is registered once, before any simulation of the process starts (as a driver
+			// that runs simulations in parallel has to): from here on simulations only look it up
+			if _, err := bmnumbers.EventuallyCreateType(strings.SplitN(c.Sps, "~", 2)[0], nil); err != nil {
+				return nil, err
+			}
+		}
+	}
 	return bm, nil
 }
 
@@ -168,6 +201,18 @@ func simulate(bm *bondmachine.Bondmachine, c caseSpec) (trace []string, err erro
 			err = fmt.Errorf("panic:%v", r)
 		}
 	}()
+	if c.Sps != "" {
+		f := strings.SplitN(c.Sps, "~", 2)
+		var sd *simbox.SimDelays
+		if c.Delay {
+			sd = sharedDelays
+		}
+		res, e := bm.SinglePipelineSimulate(f[0], []string{f[1]}, sd)
+		if e != nil {
+			return nil, e
+		}
+		return []string{strings.ReplaceAll(strings.Join(res, ";"), " ", "_")}, nil
+	}
 	vm := new(bondmachine.VM)
 	vm.Bmach = bm
 	if c.Delay {
@@ -176,12 +221,47 @@ func simulate(bm *bondmachine.Bondmachine, c caseSpec) (trace []string, err erro
 	if e := vm.Init(); e != nil {
 		return nil, e
 	}
-	vm.Launch_processors(nil)
+	var sbox *simbox.Simbox
+	var sconfig *bondmachine.SimConfig
+	var sdrive *bondmachine.SimDrive
+	if len(c.Rules) > 0 {
+		// the loop of `bondmachine -sim` / Fitness_default: absolute sets, periodic sets, step
+		sbox = new(simbox.Simbox)
+		for _, r := range c.Rules {
+			if e := sbox.Add(r); e != nil {
+				return nil, e
+			}
+		}
+		conf := new(bondmachine.Config)
+		sconfig = new(bondmachine.SimConfig)
+		if e := sconfig.Init(sbox, vm, conf); e != nil {
+			return nil, e
+		}
+		sdrive = new(bondmachine.SimDrive)
+		if e := sdrive.Init(conf, sbox, vm); e != nil {
+			return nil, e
+		}
+	}
+	if e := vm.Launch_processors(sbox); e != nil {
+		return nil, e
+	}
 	if s, has := interface{}(vm).(interface{ Shutdown() }); has {
 		defer s.Shutdown()
 	}
 	for t := 0; t < c.Ticks; t++ {
-		if _, e := vm.Step(nil); e != nil {
+		if sdrive != nil {
+			if act, ok := sdrive.AbsSet[uint64(t)]; ok {
+				for k, val := range act {
+					*sdrive.Injectables[k] = val
+				}
+			}
+			for _, act := range sdrive.PeriodicSets(uint64(t)) {
+				for k, val := range act {
+					*sdrive.Injectables[k] = val
+				}
+			}
+		}
+		if _, e := vm.Step(sconfig); e != nil {
 			return trace, e
 		}
 		var sb strings.Builder
@@ -195,6 +275,9 @@ func simulate(bm *bondmachine.Bondmachine, c caseSpec) (trace []string, err erro
 			}
 			fmt.Fprintf(&sb, ".%v", p.Outputs[0])
 		}
+		if sdrive != nil {
+			fmt.Fprintf(&sb, "#%v.%v", vm.Inputs_regs[0], vm.Outputs_regs[0])
+		}
 		trace = append(trace, sb.String())
 	}
 	return trace, nil
@@ -202,6 +285,15 @@ func simulate(bm *bondmachine.Bondmachine, c caseSpec) (trace []string, err erro
 
 var runCounter int
 var outMu sync.Mutex
+
+// registries prints the size of the process-wide number-type tables; called only while no simulation is
+// running.  A simulation must not change them (the types it uses are registered before it starts).
+func registries(after int) {
+	outMu.Lock()
+	defer outMu.Unlock()
+	out.Line("G after=%d types=%d matchers=%d opcodes=%d", after, len(bmnumbers.AllTypes), len(bmnumbers.AllMatchers), len(procbuilder.Allopcodes))
+	out.Flush()
+}
 
 func emit(c caseSpec, mode string, k int, trace []string, err error) {
 	outMu.Lock()
@@ -282,6 +374,42 @@ func genCases(tier string) []caseSpec {
 		{"rset r0 1", "rset r1 2", "addp r0 r1", "r2o r0 o0"}}})
 	cs = append(cs, caseSpec{ID: n + 3, P: 2, Rsize: 16, Ticks: 7, Progs: [][]string{
 		{"rset r0 3", "rset r1 4", "addfps16f8 r0 r1", "r2o r0 o0"}, {"rset r0 5", "rset r1 6", "addfps16f8 r0 r1", "addfps16f8 r0 r1"}}})
+	// simbox-driven cases: several periodic set rules (different periods, different values) on the same
+	// input, with and without an absolute set on a common multiple: the trace must not depend on the run
+	ioProg := []string{"rset r0 1", "i2r r2 i0", "r2o r2 o0", "add r0 r2", "j 1"}
+	cs = append(cs, caseSpec{ID: n + 6, P: 1, Rsize: 8, Ticks: 13, Progs: [][]string{ioProg},
+		Rules: []string{"relative:2:set:i0:5", "relative:3:set:i0:9"}})
+	for q := 0; q < 4; q++ {
+		per := []int{2, 3, 4, 5, 6}
+		var rules []string
+		nr := 2 + rng.Intn(2)
+		lcm := 1
+		for r := 0; r < nr; r++ {
+			j := rng.Intn(len(per))
+			p := per[j]
+			per = append(per[:j], per[j+1:]...)
+			rules = append(rules, fmt.Sprintf("relative:%d:set:i0:%d", p, 3+7*r+rng.Intn(5)))
+			g, a := lcm, p
+			for a != 0 {
+				g, a = a, g%a
+			}
+			lcm = lcm / g * p
+		}
+		if q%2 == 1 {
+			rules = append(rules, fmt.Sprintf("absolute:%d:set:i0:%d", lcm, 100+q))
+		}
+		c := caseSpec{ID: n + 7 + q, P: 1 + rng.Intn(2), Rsize: []int{8, 16}[rng.Intn(2)], Ticks: 2*lcm + 3, Rules: rules}
+		c.Progs = append(c.Progs, ioProg)
+		for p := 1; p < c.P; p++ {
+			c.Progs = append(c.Progs, genProg(rng, false, false))
+		}
+		cs = append(cs, c)
+	}
+	// SinglePipelineSimulate calls whose shown value uses a dynamic number type (registered beforehand)
+	spsProg := []string{"i2rw r0 i0", "inc r1", "r2owa r0 o0", "r2owa r1 o1"}
+	cs = append(cs, caseSpec{ID: n + 11, P: 1, Rsize: 16, Ticks: 1, Sps: "fps16f8~384", Progs: [][]string{spsProg}})
+	cs = append(cs, caseSpec{ID: n + 12, P: 1, Rsize: 16, Ticks: 1, Sps: "fps16f4~" + fmt.Sprint(16+rng.Intn(200)), Delay: true, Progs: [][]string{spsProg}})
+	cs = append(cs, caseSpec{ID: n + 13, P: 1, Rsize: 16, Ticks: 1, Sps: "unsigned~" + fmt.Sprint(rng.Intn(500)), Progs: [][]string{spsProg}})
 	// fixed cases with the shared delay table: short simulations so that the Init of one overlaps the
 	// steps (and the Init) of the others in the concurrent groups
 	cs = append(cs, caseSpec{ID: n + 4, P: 1, Rsize: 8, Ticks: 12, Delay: true, Progs: [][]string{
@@ -332,8 +460,10 @@ func runAlone(spec string) {
 		emit(c, "alone", 1, nil, err)
 		return
 	}
+	registries(0)
 	tr, err := simulate(bm, c)
 	emit(c, "alone", 1, tr, err)
+	registries(c.ID)
 }
 
 func runBatch(path string) {
@@ -348,6 +478,7 @@ func runBatch(path string) {
 		}
 		bms[i] = bm
 	}
+	registries(0)
 	for i, c := range cs {
 		if bms[i] == nil {
 			continue
@@ -369,7 +500,7 @@ func runBatch(path string) {
 			}
 		}
 		rounds := 1
-		if c.Delay {
+		if c.Delay || c.Sps != "" {
 			// start-up (VM.Init) of one simulation must overlap the others often: the race-detector
 			// runs repeat the concurrent group (VERIF_C09_ROUNDS)
 			rounds = common.EnvInt("VERIF_C09_ROUNDS", 1)
@@ -394,5 +525,6 @@ func runBatch(path string) {
 				emit(cs[j], "conc", k, rs[w].tr, rs[w].err)
 			}
 		}
+		registries(c.ID)
 	}
 }
